@@ -67,10 +67,16 @@ class GreensFunctionCache:
         )
         path = self.cache_dir / f"{key}.npz"
         if path.exists():
+            try:
+                with np.load(path) as data:
+                    grid = (data["X"], data["Y"], data["Z"])
+                    result = grid, data["conc"], data["flx"]
+            except Exception:
+                # truncated or corrupt entry (e.g. interrupted run): a miss
+                logger.warning("Ignoring unreadable cache entry: %s", key[:12])
+                return None
             logger.debug("Cache hit: %s", key[:12])
-            data = np.load(path)
-            grid = (data["X"], data["Y"], data["Z"])
-            return grid, data["conc"], data["flx"]
+            return result
         logger.debug("Cache miss: %s", key[:12])
         return None
 
